@@ -191,6 +191,24 @@ void Engine::flush_and_quiesce(bool flush) {
 	}
 }
 
+struct Retained { getters::Ret r; J canon0; std::string call; int session = 0; };
+
+void Engine::recheck_retained(const char *when) {
+	for (Retained *rt : retained) {
+		if (rt->r.freed) continue;
+		J now = getters::canon(rt->r, true);
+		if (now.dump() != rt->canon0.dump())
+			violate("RESULT_NOT_INDEPENDENT", rt->call, std::string("the result of ") + rt->call + " changed " + when + ": it was " + rt->canon0.dump().substr(0, 300) + " and now reads " + now.dump().substr(0, 300));
+	}
+}
+void Engine::release_retained() {
+	for (Retained *rt : retained) {
+		if (!rt->r.freed) { sim::ApiScope api("bidib_free_*_query"); getters::release(rt->r); }
+		delete rt;
+	}
+	retained.clear();
+}
+
 static std::vector<std::string> j_strs(const J &a) { std::vector<std::string> v; for (size_t i = 0; i < a.size(); i++) v.push_back(a[i].is_null() ? std::string("\x01NULL") : a[i].str()); return v; }
 static const char *cs(const std::vector<std::string> &v, size_t i) { return (i < v.size() && v[i] != "\x01NULL") ? v[i].c_str() : nullptr; }
 
@@ -298,6 +316,21 @@ void Engine::exec_op(const J &op, int task, int idx) {
 		sim::ApiScope api(nm.c_str());
 		rec.inv_step = sim::self()->api_invoke_step;
 		rec.result = getters::call(op.gets("fn"), s, op["i"]);
+	} else if (k == "getr") {
+		// query result that is retained: scanned for uninitialised fields now, re-read and freed later
+		std::vector<std::string> s = j_strs(op["s"]);
+		std::string nm = "bidib_get_" + op.gets("fn");
+		Retained *rt;
+		{ sim::HarnessScope hs; rt = new Retained(); rt->call = nm + op["s"].dump() + op["i"].dump(); }
+		bool ok;
+		{ sim::ApiScope api(nm.c_str()); rec.inv_step = sim::self()->api_invoke_step; ok = getters::acquire(rt->r, op.gets("fn"), s, op["i"]); }
+		if (!ok) violate("INFRA", "plan", "unknown getter " + op.gets("fn"));
+		std::string bad = getters::scan(rt->r);
+		if (!bad.empty()) violate("UNINITIALISED_FIELD", nm, rt->call + ": field " + bad);
+		rt->canon0 = getters::canon(rt->r, true);
+		rt->session = cur_session;
+		rec.result = rt->canon0;
+		retained.push_back(rt);
 	} else if (k == "reset") {
 		sim::ApiScope api("bidib_send_sys_reset");
 		rec.inv_step = sim::self()->api_invoke_step;
